@@ -463,7 +463,7 @@ class Run:
     def finalize(self, resume_value=5):
         """play, deliver the wake-ups that are still outstanding, drain (so that every run is completed)"""
         p = self.p
-        for _ in range(4):
+        for _ in range(12):      # listeners may pause again at every step: keep completing
             if not p.has_terminated():
                 self.do('play')
                 if p.state == S.WAITING:
